@@ -173,10 +173,10 @@ public:
   QUILL_NODISCARD std::string_view thread_name() const noexcept { return _thread_name; }
 
   /***/
-  void mark_invalid() noexcept { _valid.store(false, std::memory_order_relaxed); }
+  void mark_invalid() noexcept { _valid.store(false, std::memory_order_release); }
 
   /***/
-  QUILL_NODISCARD bool is_valid() const noexcept { return _valid.load(std::memory_order_relaxed); }
+  QUILL_NODISCARD bool is_valid() const noexcept { return _valid.load(std::memory_order_acquire); }
 
   /***/
   void increment_failure_counter() noexcept
